@@ -36,7 +36,8 @@ def gen_val(rng, allow_cont=True):
         return ["str", rng.randrange(0, 9)]
     if k == "float":
         return ["float", rng.randrange(0, 9)]
-    return ["cont", rng.choice([0, 0, 1, 2, 3]), []]
+    # declared with contents in a third of the cases: a push resets the field to a fresh copy of THAT value
+    return ["cont", rng.choice([0, 0, 1, 2, 3]), sorted(rng.sample(range(1, 9), rng.choice([1, 2]))) if rng.random() < 0.35 else []]
 
 
 def gen_decl(rng):
@@ -97,11 +98,8 @@ def manual_of(decl, s):
         return None
 
     items = find(decl)
-    ms = [it[3] for it in items if it[0] == "field" and it[3] is not None]
-    if not ms:
-        return []
-    last = max(ms)
-    return [it[1] for it in items if it[0] == "field" and it[3] == last]
+    # every needing_manual_initialization block adds its fields
+    return [it[1] for it in items if it[0] == "field" and it[3] is not None]
 
 
 def gen_ops(rng, decl, n):
@@ -319,7 +317,7 @@ class Ref:
     def initial(self, f):
         v = self.init[f]
         if v[0] == "cont":
-            return ["cont", v[1], []]          # a fresh empty container of the declared type
+            return ["cont", v[1], list(v[2])]  # a fresh copy of the container it was declared with
         if v[0] == "stack":
             return ["stack", []]               # a fresh empty stack
         return copy.deepcopy(v)
